@@ -23,7 +23,7 @@ WTESTS = {"groups": ['parse'], "tests": ['tests/dec'], "counts": ["C01.parse."]}
 REQUIRED = {"orientation:forward": 20, "orientation:reverse": 20, "alias-alias-pair": 20, "self-pair": 5, "unknown-daughter": 20, "self-conjugate-daughter": 20,
             "aliased-daughter": 20, "source-from-CopyDecay": 10, "cdecay-without-source": 10, "decay+cdecay-one-name": 10, "decay+cdecay>=2-names": 5,
             "chargeconj-statements:1-2": 10, "chargeconj-statements>=6": 5, "switch-off:>3-tables+applicable": 10, "cdecay-before-source-block": 10,
-            "chargeconj-after-use": 10, "tables>=4": 20, "photos-and-params-in-source": 20, "corpus-cdecay-statements": 100, "two-aliases-of-a-self-conjugate-particle": 5, "two-copies-of-one-source": 5, "switch:off-then-on-same-instance": 20, "real-name-pair": 20}
+            "chargeconj-after-use": 10, "tables>=4": 20, "photos-and-params-in-source": 20, "corpus-cdecay-statements": 100, "two-aliases-of-a-self-conjugate-particle": 5, "two-copies-of-one-source": 5, "switch:off-then-on-same-instance": 20, "real-name-pair": 20, "alias-paired-with-plain-name": 10}
 ASSUMPTIONS = ["each name is the subject of at most one CDecay; ChargeConj declarations are consistent (a partial involution); no ChargeConj pairs an alias with a real self-conjugate name",
                "relative order of derived tables is not compared"]
 
@@ -58,6 +58,22 @@ def gen_file(ctx):
             else:
                 cc[b] = a
                 cc_st.append({"k": "ChargeConj", "a": b, "b": a})
+    onesided = []
+    if r.random() < 0.3:
+        # a one-sided signal alias: the alias is declared conjugate to a plain EvtGen name (statement read in either direction)
+        n, c = r.choice(pairs)
+        a = f"Sig{n}"
+        if a not in aliases and n not in aliases.values() and c not in aliases.values() and L.label_ok(a, g.models):
+            aliases[a] = n
+            alias_st.append({"k": "Alias", "a": a, "b": n})
+            if r.random() < 0.5:
+                cc[a] = c
+                cc_st.append({"k": "ChargeConj", "a": a, "b": c})
+            else:
+                cc[c] = a
+                cc_st.append({"k": "ChargeConj", "a": c, "b": a})
+            onesided = [a, c, n]
+            hits.append("alias-paired-with-plain-name")
     if r.random() < 0.2 and selfc:
         n = r.choice(selfc)
         a = f"My{n}"
@@ -85,7 +101,9 @@ def gen_file(ctx):
         out = []
         for _ in range(k):
             x = r.random()
-            if x < 0.5:
+            if onesided and x < 0.25:
+                out.append(r.choice(onesided))
+            elif x < 0.5:
                 out.append(r.choice(g.real))
             elif x < 0.7 and aliases:
                 out.append(r.choice(list(aliases)))
@@ -103,6 +121,8 @@ def gen_file(ctx):
     ntab = r.choice([1, 2, 3, 4, 5, 8])
     for _ in range(ntab):
         m = r.choice(list(aliases)) if aliases and r.random() < 0.5 else r.choice(pairs)[0]
+        if onesided and not (set(onesided) & used) and r.random() < 0.7:
+            m = onesided[0] if r.random() < 0.6 else onesided[1]
         if "two-aliases-of-a-self-conjugate-particle" in hits and not any(x.startswith("Myanti-") or x[2:] in selfc for x in used) and r.random() < 0.7:
             m = next(x for x in aliases if x[2:] in selfc and not x.startswith("Myanti-"))
         if m in used:
